@@ -244,6 +244,48 @@ def gen_sink_histories(rng, tier, mode):
     return out
 
 
+def adts_raw(fl, prot_absent, buflen, sfi=3, chan=2, fill=0x21):
+    """ADTS header with an explicit 13-bit frame length field, in a buffer of buflen bytes."""
+    h = [0xff, 0xf0 | prot_absent, 0x40 | (sfi << 2) | (chan >> 2), ((chan & 3) << 6) | ((fl >> 11) & 3),
+         (fl >> 3) & 0xff, ((fl & 7) << 5) | 0x1f, 0xfc]
+    buf = h + [((fill + i) % 200) + 16 for i in range(max(0, buflen - 7))]
+    return buf[:buflen]
+
+
+def gen_adts(rng, tier):
+    """Muxer instances whose audio frames sweep frame-length field x protection flag x buffer length."""
+    frames = []
+    if tier == 'quick':
+        fls = list(range(0, 24)) + [255, 256, 257, 511, 512, 1023, 1024, 2047, 2048, 2049, 4095, 4096, 8190, 8191]
+    else:
+        fls = list(range(0, 8192))
+    for fl in fls:
+        for pa in (0, 1):
+            variants = [fl] if (tier != 'quick' and 40 < fl < 8150 and fl % 64) else [fl - 1, fl, fl + 1, 6, 7, 8, 9]
+            for bl in variants:
+                if bl < 0:
+                    continue
+                frames.append(adts_raw(fl, pa, bl))
+    # header field classes on a fixed length
+    for sfi in range(16):
+        for chan in range(8):
+            frames.append(adts_raw(20, 1, 20, sfi=sfi, chan=chan))
+    for b1 in (0xf1, 0xf9, 0xf3, 0xf5, 0xf7, 0xe1, 0x71):
+        f = adts_raw(20, 1, 20)
+        f[1] = b1
+        frames.append(f)
+    out = []
+    per = 24
+    for i in range(0, len(frames), per):
+        cfg = base_cfg('h264', 'aac')
+        calls = [{'op': 'wv', 'pts': fin(0), 'data': video_frame(rng, 'h264', True, 4), 'key': True}]
+        for f in frames[i:i + per]:
+            calls.append({'op': 'wa', 'pts': fin(0), 'data': f})
+        calls.append({'op': 'fin', 'how': 'in_place_stats'})
+        out.append({'cfg': cfg, 'calls': calls})
+    return out
+
+
 def generate(kind, n, seed, tier):
     rng = random.Random((seed * 1000003) ^ hash(kind) & 0xffff if False else seed * 1000003 + sum(map(ord, kind)))
     out = []
@@ -253,6 +295,8 @@ def generate(kind, n, seed, tier):
             h['seed'] = seed
             h['nrand'] = 20 if tier == 'quick' else 200
         return hs
+    if kind == 'adts':
+        return gen_adts(rng, tier)
     for _ in range(n):
         if kind == 'mux':
             out.append(gen_mux(rng, tier))
